@@ -68,11 +68,11 @@ func init() {
 				{Name: "reader", Reader: &ReaderSpec{Backoff: true}},
 				{Name: "A", Ops: []Op{
 					{Kind: "pub1", Topic: "a/1", Msg: []byte("A1-aaaa")},
-					{Kind: "pub1", Topic: "a/2", Msg: []byte("A2-aaaa")},
+					{Kind: "pub1r", Topic: "a/2", Msg: []byte("A2-aaaa")}, // retained variants: the flag bits differ, the rules do not
 				}},
 				{Name: "B", Ops: []Op{
 					{Kind: "pub2", Topic: "b/1", Msg: []byte("B1-bbbb")},
-					{Kind: "pub2", Topic: "b/2", Msg: []byte("B2-bbbb")},
+					{Kind: "pub2r", Topic: "b/2", Msg: []byte("B2-bbbb")},
 				}},
 				{Name: "C", Ops: []Op{
 					{Kind: "pub1", Topic: "c/1", Msg: []byte("C1-cccc")},
